@@ -39,11 +39,18 @@ let suite_of = function
   | "k256" -> k256_suite
   | "p256" -> p256_suite
   | "bls12381g1" -> bls12381g1_suite
+  | "pallas" -> pallas_suite
+  | "vesta" -> vesta_suite
   | s -> failwith ("unknown suite " ^ s)
 
 let show_pt = function
   | None -> "inf"
   | Some (x, y) -> hex_of_z x ^ "," ^ hex_of_z y
+
+let show_fp2 (a, b) = hex_of_z a ^ ":" ^ hex_of_z b
+let show_pt2 = function
+  | None -> "inf"
+  | Some (x, y) -> show_fp2 x ^ "," ^ show_fp2 y
 
 let () =
   iter_lines (fun line ->
@@ -73,6 +80,28 @@ let () =
           (z_of_string count) (bytes_of_hex u) in
       Printf.printf "U %s %s\n" id
         (String.concat ";" (List.map (fun e -> String.concat "," (List.map hex_of_z e)) r))
+    | ["ISO"; id; "bls12381g2"] -> Printf.printf "ISO %s %b\n" id g2_iso_identity
+    | ["ISO"; id; suite] -> Printf.printf "ISO %s %b\n" id (ws_iso_identity (suite_of suite))
+    | ["HF"; id; "bls12381g2"; _; count; b; s; dst; msg; tbl] ->
+      let r = try
+          (match g2_h2f (table_fn tbl) (z_of_string b) (z_of_string s)
+                   (z_of_string count) (bytes_of_hex dst) (bytes_of_hex msg) with
+           | None -> "PANIC"
+           | Some us -> String.concat "," (List.map show_fp2 us))
+        with Miss -> "MISS" in
+      Printf.printf "HF %s %s\n" id r
+    | ["HC"; id; "bls12381g2"; b; s; dst; msg; tbl] ->
+      let h = table_fn tbl and bb = z_of_string b and ss = z_of_string s in
+      let r = try
+          (match g2_h2f h bb ss (z_of_int 2) (bytes_of_hex dst) (bytes_of_hex msg),
+                 g2_hash_to_curve h bb ss (bytes_of_hex dst) (bytes_of_hex msg) with
+           | Some us, Some p ->
+             let qs = List.map (fun u -> show_pt2 (g2_to_affine (g2_map u))) us in
+             String.concat ";" [String.concat "," (List.map show_fp2 us); String.concat ";" qs; show_pt2 p;
+                                string_of_bool (g2_on_curve p); string_of_bool (g2_in_subgroup p)]
+           | _ -> "PANIC")
+        with Miss -> "MISS" in
+      Printf.printf "HC %s %s\n" id r
     | ["HF"; id; "edwards25519"; scalar; count; b; s; dst; msg; tbl] ->
       let r = try
           (match ed_h2f (table_fn tbl) (z_of_string b) (z_of_string s) (scalar = "1")
